@@ -1,7 +1,7 @@
 (** C35 — Block download delivers every servable height. *)
 From Coq Require Import List ZArith NArith Bool Arith Permutation.
 From C33 Require Import Lib.Harness C35.Model C35.Spec C35.ProofsTerm C35.ProofsSolo C35.ProofsSim
-     C35.ProofsSingle C35.ProofsMulti C35.ProofsMain.
+     C35.ProofsSingle C35.ProofsMulti C35.ProofsReask C35.ProofsMain.
 Import ListNotations.
 
 (** Under every schedule of the height goroutines at most 313 events per
@@ -12,98 +12,85 @@ Theorem C35_terminates : forall c sched,
 Proof. exact terminates. Qed.
 Print Assumptions C35_terminates.
 
-(** ... but a goroutine can wait for ever: a peer that accepts the stream and
-    never answers blocks ReadStream (no deadline), in phase one and in phase two. *)
-Theorem C35_no_deadlock_refuted : ~ no_deadlock_full.
-Proof. exact no_deadlock_refuted. Qed.
-Print Assumptions C35_no_deadlock_refuted.
-
-Theorem C35_second_phase_terminates_refuted : ~ second_phase_terminates_full.
-Proof. exact second_phase_terminates_refuted. Qed.
-Print Assumptions C35_second_phase_terminates_refuted.
-
-(** Without silent peers no reachable state is stuck before every goroutine
-    has returned, and every re-download of the second phase returns. *)
-Theorem C35_no_deadlock_partial : forall c sched,
-  no_stall c = true -> all_done (phase_one c sched) = false ->
+(** ... and no reachable state is stuck before every goroutine has returned:
+    every request ends (block, error, or the 10 s stream deadline) ... *)
+Theorem C35_no_deadlock : forall c sched,
+  all_done (phase_one c sched) = false ->
   exists e s', step c (init_job c) (phase_one c sched) e = Some s'.
-Proof. exact no_deadlock_partial. Qed.
-Print Assumptions C35_no_deadlock_partial.
+Proof. exact no_deadlock. Qed.
+Print Assumptions C35_no_deadlock.
 
-Theorem C35_second_phase_terminates_partial : forall c h,
-  no_stall_at c h = true -> all_done (recheck c h) = true.
-Proof. exact second_phase_terminates_partial. Qed.
-Print Assumptions C35_second_phase_terminates_partial.
+(** ... and every re-download of the second phase returns. *)
+Theorem C35_second_phase_terminates : forall c h, all_done (recheck c h) = true.
+Proof. exact second_phase_terminates. Qed.
+Print Assumptions C35_second_phase_terminates.
 
-(** One height (no aliasing possible): for every complete schedule a failed
-    peer is never asked again, the height is delivered iff some given peer
-    serves it (no wrong-height answers, at most 50 peers), and everything asked
-    or handed over is justified by the inputs. *)
+(** One height: for every complete schedule a failed peer is never asked
+    again, the height is delivered iff some given peer serves it (at most 50
+    peers), and everything asked or handed over is justified by the inputs. *)
 Theorem C35_single_goroutine_correct : forall c h sched,
   heights c = [h] -> all_done (phase_one c sched) = true ->
   let tr := rev (s_log (phase_one c sched)) in
-  (no_stall_at c h = true -> distinct_peers c = true -> no_reask_from c [] tr = true)
-  /\ (no_stall_at c h = true -> no_wrong_at c h = true -> few_peers c = true ->
-      memZ h (delivered tr) = servable c h)
+  (distinct_peers c = true -> no_reask_from c [] tr = true)
+  /\ (few_peers c = true -> memZ h (delivered tr) = servable c h)
   /\ (forall o, In o tr -> log_ok c o).
 Proof. exact single_goroutine_correct. Qed.
 Print Assumptions C35_single_goroutine_correct.
 
-(** Delivery of every servable height, all schedules, both phases. *)
-Theorem C35_delivers_if_servable_refuted : ~ delivers_if_servable_full.
-Proof. exact delivers_refuted. Qed.
-Print Assumptions C35_delivers_if_servable_refuted.
-
-Theorem C35_delivers_if_servable_partial : forall c sched order,
-  delivery_guard c = true -> complete_run c sched order ->
+(** Delivery of every servable height, all schedules, both phases, whatever
+    the other peers do (refuse, malformed, wrong height, silence).  The only
+    guard is the retry bound of downloadBlock: at most 50 given peers. *)
+Theorem C35_delivers_if_servable : forall c sched order,
+  few_peers c = true -> complete_run c sched order ->
   spec_delivers c (task_log c sched order) = true.
-Proof. exact delivers_partial. Qed.
-Print Assumptions C35_delivers_if_servable_partial.
-
-(** Phase one alone loses servable heights through the shared array (the
-    second phase is what makes the partial theorem above true). *)
-Theorem C35_phase_one_delivers_refuted : ~ phase_one_delivers_full.
-Proof. exact phase_one_delivers_refuted. Qed.
-Print Assumptions C35_phase_one_delivers_refuted.
+Proof. exact delivers. Qed.
+Print Assumptions C35_delivers_if_servable.
 
 (** Only blocks of the range from peers that serve them are handed over. *)
-Theorem C35_delivered_only_served_partial : forall c sched order,
-  no_wrong_height c = true -> complete_run c sched order ->
-  spec_sound c (task_log c sched order) = true.
-Proof. exact sound_partial. Qed.
-Print Assumptions C35_delivered_only_served_partial.
+Theorem C35_delivered_only_served : forall c sched order,
+  complete_run c sched order -> spec_sound c (task_log c sched order) = true.
+Proof. exact sound. Qed.
+Print Assumptions C35_delivered_only_served.
 
-(** Unguarded form: whatever is asked or handed over under any schedule is
-    justified by the inputs (a peer of the list, high enough, that answered
-    with a block). *)
+(** Whatever is asked or handed over under any schedule is justified by the
+    inputs (a peer of the list, high enough, that answered with the block). *)
 Theorem C35_trace_justified : forall c sched order o,
   (forall h, In h order -> In h (heights c)) -> In o (task_log c sched order) -> log_ok c o.
 Proof. exact task_log_ok. Qed.
 Print Assumptions C35_trace_justified.
 
-(** A failed peer is not asked again within phase one. *)
-Theorem C35_failed_peer_not_reasked_refuted : ~ failed_peer_not_reasked_full.
-Proof. exact not_reasked_refuted. Qed.
-Print Assumptions C35_failed_peer_not_reasked_refuted.
-
-Theorem C35_failed_peer_not_reasked_partial : forall c sched,
-  reask_guard c = true -> all_done (phase_one c sched) = true ->
+(** A failed peer is not asked again within phase one: any number of heights,
+    every schedule, complete or not. *)
+Theorem C35_failed_peer_not_reasked : forall c sched,
   spec_no_reask_phase_one c (rev (s_log (phase_one c sched))) = true.
-Proof. exact not_reasked_partial. Qed.
-Print Assumptions C35_failed_peer_not_reasked_partial.
+Proof. exact not_reasked. Qed.
+Print Assumptions C35_failed_peer_not_reasked.
 
-(** ... and not within the whole task either (the second phase asks again). *)
+(** Within the whole task it is: the second phase rebuilds the peer list and
+    asks again (open finding) ... *)
 Theorem C35_not_reasked_in_task_refuted : ~ not_reasked_in_task_full.
 Proof. exact not_reasked_in_task_refuted. Qed.
 Print Assumptions C35_not_reasked_in_task_refuted.
 
+(** ... so the clause holds for the task when no height fails in phase one. *)
+Theorem C35_not_reasked_in_task_partial : forall c sched,
+  complete_run c sched [] -> spec_no_reask_task c (task_log c sched []) = true.
+Proof. exact not_reasked_in_task_partial. Qed.
+Print Assumptions C35_not_reasked_in_task_partial.
+
 (** The hypotheses above are satisfiable by non-trivial runs. *)
 Theorem C35_hypotheses_satisfiable :
-  (delivery_guard cfg_lost = true /\ complete_run cfg_lost sched_lost [1; 2]%Z)
+  (few_peers cfg_lost = true /\ complete_run cfg_lost sched_lost [2]%Z)
+  /\ (complete_run cfg_wrong sched_two [] /\ complete_run cfg_stall sched_two []
+      /\ task_log cfg_wrong sched_two [] = [OInit [0; 1]; OReq 1%Z 0; OReq 1%Z 1; ODeliver 1%Z 1]%nat
+      /\ task_log cfg_stall sched_two [] = [OInit [0; 1]; OReq 1%Z 0; OReq 1%Z 1; ODeliver 1%Z 1]%nat)
   /\ (heights cfg_single = [3%Z] /\ all_done (phase_one cfg_single sched_single) = true
-      /\ distinct_peers cfg_single = true /\ no_wrong_at cfg_single 3 = true /\ few_peers cfg_single = true
-      /\ servable cfg_single 3 = true /\ reask_guard cfg_single = true /\ no_stall_at cfg_single 3 = true
+      /\ distinct_peers cfg_single = true /\ few_peers cfg_single = true
+      /\ servable cfg_single 3 = true
       /\ rev (s_log (phase_one cfg_single sched_single))
          = [OInit [0; 1; 2]; OReq 3%Z 0; OReq 3%Z 2; ODeliver 3%Z 2]%nat).
-Proof. exact (conj (conj guard_on_lost lost_is_complete) single_hypotheses). Qed.
+Proof.
+  exact (conj (conj (proj1 lost_no_longer_lost) lost_is_complete)
+              (conj wrong_and_stall_tolerated single_hypotheses)).
+Qed.
 Print Assumptions C35_hypotheses_satisfiable.
